@@ -50,21 +50,39 @@ func edgeExpArgs(thorough bool) []float64 {
 	return l
 }
 
+// edgeSmallArgs: the subnormal range and its two borders, in BOTH tiers: MIN_VALUE,
+// every power of two 2^-1074 .. 2^-1021 with its two neighbours and 3*2^-k (two
+// mantissa bits), the largest subnormal, the smallest normal and its successor,
+// a few decimal subnormals, and the top of the range. Every function whose result
+// is well defined there is held to the reference on all of them (the platform
+// math.Log reads subnormals wrongly on amd64; otto carries a rescaling guard whose
+// threshold and scale are only exercised by this range).
 func edgeSmallArgs(thorough bool) []float64 {
 	l := []float64{5e-324, 1e-323, 1.5e-323, 2e-323, 1e-320, 1e-315, 1e-310, 1.1125369292536007e-308 /* 2^-1023 */, 2e-308,
 		2.225073858507201e-308, minNrm, mathspec.Succ(minNrm), 2.3e-308, 4.450147717014403e-308, 1e-300,
 		0x1p1023, mathspec.Pred(maxF), maxF}
-	if thorough {
-		for k := 1022; k <= 1074; k++ {
-			p := math.Ldexp(1, -k)
-			l = append(l, p, 3*p)
-			if q := mathspec.Pred(p); q > 0 {
-				l = append(l, q)
-			}
+	for k := 1021; k <= 1074; k++ {
+		p := math.Ldexp(1, -k)
+		l = append(l, p, 3*p, mathspec.Succ(p))
+		if q := mathspec.Pred(p); q > 0 {
+			l = append(l, q)
 		}
 	}
-	return l
+	seen := map[uint64]bool{}
+	out := l[:0]
+	for _, x := range l {
+		if b := math.Float64bits(x); !seen[b] {
+			seen[b] = true
+			out = append(out, x)
+		}
+	}
+	return out
 }
+
+// tinyIdentity: functions with f(x) = x + O(x^3); on |x| <= 2^-1021 the cubic term is
+// below 2^-3000, so the correctly rounded result is x itself (tolerance 1 ulp as in the
+// small-angle law of the unary family). tinyConst: f(x) = c + O(x).
+var tinyIdentity = []string{"sin", "tan", "asin", "atan"}
 
 var edgePowArgs = [][2]float64{
 	{2, 1023}, {2, 1023.9}, {2, 1023.9999999999999}, {2, 1024}, {2, 1024.0000000000002}, {10, 308}, {10, 308.2}, {10, 308.25}, {10, 308.3},
@@ -89,11 +107,38 @@ func runEdges(r *engine.Run) {
 	}
 	for _, x := range edgeSmallArgs(r.Thorough()) {
 		cases = append(cases, ecase{"log", []float64{x}}, ecase{"sqrt", []float64{x}})
+		if x > 0x1p-1020 {
+			continue
+		}
+		// the subnormal range and its border: every function that is defined there, both signs
+		for _, sx := range []float64{x, -x} {
+			for _, fn := range tinyIdentity {
+				cases = append(cases, ecase{fn, []float64{sx}})
+			}
+			cases = append(cases, ecase{"cos", []float64{sx}}, ecase{"acos", []float64{sx}}, ecase{"exp", []float64{sx}},
+				ecase{"atan2", []float64{sx, 1}}, ecase{"pow", []float64{sx, 1}})
+		}
 	}
 	for _, p := range edgePowArgs {
 		cases = append(cases, ecase{"pow", []float64{p[0], p[1]}})
 	}
+	{ // the explicit pow list and the lattice overlap in a few (x, 1) tuples: keep the first occurrence
+		seen := map[string]bool{}
+		out := cases[:0]
+		for _, c := range cases {
+			k := c.fn + fmt.Sprint(c.args)
+			for _, a := range c.args {
+				k += fmt.Sprintf("/%016x", math.Float64bits(a))
+			}
+			if !seen[k] {
+				seen[k] = true
+				out = append(out, c)
+			}
+		}
+		cases = out
+	}
 	r.Bound("cases", fmt.Sprint(len(cases)))
+	r.Bound("subnormal_lattice", fmt.Sprint(len(edgeSmallArgs(r.Thorough()))))
 	for i, c := range cases {
 		key := c.fn
 		in := "Math." + c.fn + "("
@@ -130,17 +175,28 @@ func runEdges(r *engine.Run) {
 		}
 		var ref float64
 		tol := uint64(edgeUlpsExpLog)
+		how := "320-bit reference"
 		switch c.fn {
+		case "sin", "tan", "asin", "atan", "atan2":
+			ref, tol, how = c.args[0], 1, "f(x) = x - O(x^3) rounds to x"
+		case "cos":
+			ref, tol, how = 1, 1, "1 - x^2/2 rounds to 1"
+		case "acos":
+			ref, tol, how = mathspec.PiHalf, 1, "pi/2 - x rounds to pi/2"
 		case "exp":
 			ref = mathspec.RefExp(c.args[0])
 		case "log":
 			ref = mathspec.RefLog(c.args[0])
 		case "pow":
+			if c.args[1] == 1 {
+				ref, tol, how = c.args[0], 0, "x^1 = x exactly"
+				break
+			}
 			ref = mathspec.RefPow(c.args[0], c.args[1])
 			tol = edgeUlpsPow + uint64(math.Abs(c.args[1]*mathspec.RefLog(c.args[0])))
 		}
-		if !o.isNum || math.IsNaN(o.num) || mathspec.UlpDiff(ref, o.num) > tol {
-			r.Mismatch(engine.Mismatch{Key: key, Input: in, Expected: fmt.Sprintf("d:%s within %d ulp (320-bit reference)", mathspec.Num(ref), tol), Observed: o.canon, Aux: aux})
+		if !o.isNum || math.IsNaN(o.num) || mathspec.UlpDiff(ref, o.num) > tol || (ref != 0 && o.num != 0 && math.Signbit(ref) != math.Signbit(o.num)) {
+			r.Mismatch(engine.Mismatch{Key: key, Input: in, Expected: fmt.Sprintf("d:%s within %d ulp (%s)", mathspec.Num(ref), tol, how), Observed: o.canon, Aux: aux})
 		}
 	}
 }
